@@ -3,6 +3,7 @@ package spg
 import (
 	"fmt"
 	"math"
+	"os"
 	"strings"
 )
 
@@ -123,7 +124,10 @@ func NewWordList(list []string) (*WordList, error) {
 		// We just need to log a warning here. Not sure how we are handling that.
 		// I could create a brain with standard logger and use that, but that seems
 		// wrong. So let's just do this
-		fmt.Printf("%d duplicate words found when setting up word list generator\n", len(list)-len(ourWords))
+		// This is a diagnostic, not output: it goes to standard error so that it
+		// cannot be mistaken for (or mixed into) what a caller prints on standard
+		// output, such as the generated password.
+		fmt.Fprintf(os.Stderr, "%d duplicate words found when setting up word list generator\n", len(list)-len(ourWords))
 	}
 	result := &WordList{
 		words:                ourWords,
